@@ -24,7 +24,7 @@ ASSUMPTIONS = [
 
 
 def budget(tier):
-    return 8000 if tier == "quick" else 50000
+    return 16000 if tier == "quick" else 50000
 
 
 @st.composite
